@@ -52,8 +52,18 @@ func registerNumParse(e *Engine) {
 	reg("strconv.ParseInt", func(th *Thread, fn *ssa.Function, a []Value) Value {
 		base, bits := a[1].(*Term), a[2].(*Term)
 		if base.IsConst() && base.c == 10 && bits.IsConst() {
-			res := atoi(th, a[0].(*StrVal)).(Tuple)
-			return res
+			// acceptance from a representative (digits abstracted to zero /
+			// non-zero); the value itself is an opaque integer (strconv.Atoi,
+			// which the framing code uses, stays exact)
+			rep, _ := th.representative(a[0].(*StrVal), true)
+			if _, err := strconv.ParseInt(rep, 10, int(bits.Int())); err != nil {
+				if ne, ok := err.(*strconv.NumError); !ok || ne.Err != strconv.ErrRange || len(rep) < 18 {
+					return Tuple{mkInt(64, 0), mkErrorValue(th, "strconv.ParseInt: "+err.Error())}
+				}
+			}
+			v := th.st.freshVar("parseint.value", 64)
+			th.st.note("strconv.ParseInt(base 10): value abstracted to an arbitrary integer")
+			return Tuple{v, nilError()}
 		}
 		// other bases: fully concrete representative
 		rep, _ := th.representative(a[0].(*StrVal), false)
